@@ -1315,4 +1315,162 @@ theorem not_fits_wide_key {V} (ser : V → Option Val) (v : V) (s : Bits) (hl : 
   simp at h
   omega
 
+/-! ### uniqueness of the canonical tree -/
+theorem valid_nonempty' {ok p n c kv} (h : ValidHMK ok p n c kv) : p = false → kv ≠ [] := by
+  induction h with
+  | leaf => intro _; simp
+  | fork _ _ _ _ _ ihl _ => intro hp; simp [ihl hp]
+  | pruned _ => intro hp; simp at hp
+
+theorem valid_nonempty {ok n c kv} (h : ValidHMK ok false n c kv) : kv ≠ [] := valid_nonempty' h rfl
+
+theorem valid_keylen {ok p n c kv} (h : ValidHMK ok p n c kv) : ∀ q ∈ kv, q.1.length = n := by
+  induction h with
+  | leaf _ _ hn => intro q hq; simp at hq; subst hq; exact hn
+  | fork _ _ hn _ _ ihl ihr =>
+    intro q hq
+    simp only [List.mem_append, List.mem_map] at hq
+    rcases hq with ⟨a, ha, rfl⟩ | ⟨a, ha, rfl⟩
+    · have := ihl a ha; simp [pre, this]; omega
+    · have := ihr a ha; simp [pre, this]; omega
+  | pruned _ => intro q hq; simp at hq
+
+theorem LabelEnc_unique {m s k lb lb'} (h : LabelEnc m s k lb) (h' : LabelEnc m s k lb') (hs : k = .same → s ≠ []) : lb = lb' := by
+  cases h with
+  | short _ => cases h'; rfl
+  | long _ => cases h'; rfl
+  | same v hv _ =>
+    cases h' with
+    | same v' hv' _ =>
+      have hne := hs rfl
+      have : v = v' := by
+        cases s with
+        | nil => exact absurd rfl hne
+        | cons a t =>
+          rw [List.length_cons, List.replicate_succ] at hv hv'
+          have h1 := (List.cons.inj hv).1
+          have h2 := (List.cons.inj hv').1
+          rw [← h1, ← h2]
+      subst this; rfl
+
+theorem refPolicy_same_ne {m s} (h : refLabelKind s.length m (allSame s) = .same) : s ≠ [] := by
+  intro e; subst e
+  simp [refLabelKind] at h
+
+theorem pre_inj {α} (p : Bits) : Function.Injective (pre p : Bits × α → Bits × α) := by
+  intro a b h
+  obtain ⟨a1, a2⟩ := a; obtain ⟨b1, b2⟩ := b
+  simp [pre] at h
+  simp [h.1, h.2]
+
+/-- two fork decompositions of the same leaf list coincide -/
+theorem fork_split_unique {α} (s s' : Bits) (kvl kvr kvl' kvr' : List (Bits × α))
+    (hl : kvl ≠ []) (hr : kvr ≠ []) (hl' : kvl' ≠ []) (hr' : kvr' ≠ [])
+    (h : kvl.map (pre (s ++ [false])) ++ kvr.map (pre (s ++ [true])) = kvl'.map (pre (s' ++ [false])) ++ kvr'.map (pre (s' ++ [true]))) :
+    s = s' ∧ kvl = kvl' ∧ kvr = kvr' := by
+  -- first and last keys
+  have hlast : ∃ b b', s ++ true :: b = s' ++ true :: b' := by
+    have := congrArg (fun l => (l.getLast?).map Prod.fst) h
+    obtain ⟨b, tb, hb⟩ := List.exists_cons_of_ne_nil hr
+    obtain ⟨b', tb', hb'⟩ := List.exists_cons_of_ne_nil hr'
+    have e1 : (kvr.map (pre (s ++ [true]))) ≠ [] := by simp [hr]
+    have e2 : (kvr'.map (pre (s' ++ [true]))) ≠ [] := by simp [hr']
+    cases h1 : kvr.getLast? with
+    | none => simp [List.getLast?_eq_none_iff] at h1; exact absurd h1 hr
+    | some x =>
+      cases h2 : kvr'.getLast? with
+      | none => simp [List.getLast?_eq_none_iff] at h2; exact absurd h2 hr'
+      | some y =>
+        simp [List.getLast?_append, List.getLast?_map, h1, h2, pre] at this
+        exact ⟨x.1, y.1, this⟩
+  obtain ⟨b, b', hlast⟩ := hlast
+  obtain ⟨a, ta, rfl⟩ := List.exists_cons_of_ne_nil hl
+  obtain ⟨a', ta', rfl⟩ := List.exists_cons_of_ne_nil hl'
+  have hfirst : s ++ false :: a.1 = s' ++ false :: a'.1 := by
+    have := congrArg (fun l => (l.head?).map Prod.fst) h
+    simpa [pre] using this
+  have hs : s = s' := by
+    rcases List.append_eq_append_iff.1 hfirst with ⟨c, hc1, hc2⟩ | ⟨c, hc1, hc2⟩
+    · cases c with
+      | nil => simpa using hc1.symm
+      | cons x c =>
+        rw [hc1] at hlast
+        simp at hc2 hlast
+        have := hc2.1.symm.trans hlast.1
+        simp at this
+    · cases c with
+      | nil => simpa using hc1
+      | cons x c =>
+        rw [hc1] at hlast
+        simp at hc2 hlast
+        have := hc2.1.symm.trans hlast.1
+        simp at this
+  subst hs
+  refine ⟨rfl, ?_⟩
+  have hbit : ∀ (x : Bits × α) (l1 l2 : List (Bits × α)), x ∈ l1.map (pre (s ++ [false])) → x ∈ l2.map (pre (s ++ [true])) → False := by
+    intro x l1 l2 h1 h2
+    obtain ⟨u, _, rfl⟩ := List.mem_map.1 h1
+    obtain ⟨w, _, hw⟩ := List.mem_map.1 h2
+    have := congrArg Prod.fst hw
+    simp [pre] at this
+  rcases List.append_eq_append_iff.1 h with ⟨c, hc1, hc2⟩ | ⟨c, hc1, hc2⟩
+  · cases c with
+    | nil =>
+      rw [List.append_nil] at hc1; rw [List.nil_append] at hc2
+      exact ⟨(List.map_inj_right (pre_inj _)).1 hc1.symm, (List.map_inj_right (pre_inj _)).1 hc2⟩
+    | cons x c =>
+      exact absurd (hbit x _ _ (by rw [hc1]; simp) (by rw [hc2]; simp)) id
+  · cases c with
+    | nil =>
+      rw [List.append_nil] at hc1; rw [List.nil_append] at hc2
+      exact ⟨(List.map_inj_right (pre_inj _)).1 hc1, (List.map_inj_right (pre_inj _)).1 hc2.symm⟩
+    | cons x c =>
+      exact absurd (hbit x _ _ (by rw [hc1]; simp) (by rw [hc2]; simp)) id
+
+/-- UNIQUENESS of the canonical tree -/
+theorem canonical_unique' {p n c1 kv} (h1 : ValidHMK refPolicy p n c1 kv) : p = false →
+    ∀ c2 kv', kv = kv' → ValidHMK refPolicy false n c2 kv' → c1 = c2 := by
+  induction h1 with
+  | pruned _ => intro hp; simp at hp
+  | @leaf p n s k lb vb vr hl hok hn =>
+    intro hp c2 kv' hkv h2
+    subst hp
+    cases h2 with
+    | @leaf _ _ s' k' lb' vb' vr' hl' hok' hn' =>
+      simp at hkv
+      obtain ⟨rfl, rfl, rfl⟩ := hkv
+      have hk : k = k' := by rw [hok, hok']
+      subst hk
+      have := LabelEnc_unique hl hl' (fun e => refPolicy_same_ne (by rw [← hok, e]))
+      rw [this]
+    | @fork _ _ m' s' k' lb' l' r' kvl' kvr' hl' hok' hn' hvl' hvr' =>
+      have e1 := valid_nonempty hvl'
+      have e2 := valid_nonempty hvr'
+      have := congrArg List.length hkv
+      simp at this
+      have p1 : 0 < kvl'.length := List.length_pos_iff.2 e1
+      have p2 : 0 < kvr'.length := List.length_pos_iff.2 e2
+      omega
+  | @fork p n m s k lb l r kvl kvr hl hok hn hvl hvr ihl ihr =>
+    intro hp c2 kv' hkv h2
+    subst hp
+    cases h2 with
+    | @leaf _ _ s' k' lb' vb' vr' hl' hok' hn' =>
+      have e1 := valid_nonempty hvl
+      have e2 := valid_nonempty hvr
+      have := congrArg List.length hkv
+      simp at this
+      have p1 : 0 < kvl.length := List.length_pos_iff.2 e1
+      have p2 : 0 < kvr.length := List.length_pos_iff.2 e2
+      omega
+    | @fork _ _ m' s' k' lb' l' r' kvl' kvr' hl' hok' hn' hvl' hvr' =>
+      obtain ⟨rfl, rfl, rfl⟩ := fork_split_unique s s' kvl kvr kvl' kvr' (valid_nonempty hvl) (valid_nonempty hvr)
+        (valid_nonempty hvl') (valid_nonempty hvr') hkv
+      have hm : m = m' := by omega
+      subst hm
+      have hk : k = k' := by rw [hok, hok']
+      subst hk
+      have e := LabelEnc_unique hl hl' (fun e => refPolicy_same_ne (by rw [← hok, e]))
+      rw [e, ihl rfl l' kvl rfl hvl', ihr rfl r' kvr rfl hvr']
+
 end TonVerif.Proofs.Hashmap
